@@ -3,6 +3,7 @@ import ast
 import re
 
 from ..core import AnalysisError
+from .shared_py import inn
 from ..pyfront import unparse, try_const, path_conditions
 
 
@@ -38,7 +39,7 @@ def cache_and_cycle(ctx, L):
     L.check(len(body) == len(want), 'C16a.cache-protocol', '_process_file|length', f.site(), 'no further steps', str(len(body)))
     init = fp.func('FileProcessor.__init__')
     s = ws(unparse(init.node))
-    L.check('self.files = {}' in s and 'self.include_dirs = [d for d in include_dirs]' in s, 'C16a.cache-protocol', 'FileProcessor.__init__', init.site(),
+    L.check(inn('self.files = {}', s) and inn('self.include_dirs = [d for d in include_dirs]', s), 'C16a.cache-protocol', 'FileProcessor.__init__', init.site(),
             'one cache and a private copy of the include path per processor', s)
     # the only per-run state of the processor is the abspath-keyed cache and the search path
     attrs = set()
@@ -80,7 +81,7 @@ def dir_stack(ctx, L):
 def include_errors(ctx, L):
     pp = ctx.py.mod('prophyc.parsers.prophy').func('Parser.p_include_def')
     s = ws(unparse(pp.node))
-    L.check('except (file_processor.CyclicIncludeError, file_processor.FileNotFoundError) as e: self._parser_error(str(e), t.lineno(3), t.lexpos(3))' in s,
+    L.check(inn('except (file_processor.CyclicIncludeError, file_processor.FileNotFoundError) as e: self._parser_error(str(e), t.lineno(3), t.lexpos(3))', s),
             'C16c.include-errors', 'prophy.p_include_def', pp.site(), 'a missing or cyclic include is a parse error', s[:400])
     mi = ctx.py.mod('prophyc.parsers.isar').func('make_include')
     s = ws(unparse(mi.node))
@@ -94,11 +95,11 @@ def include_errors(ctx, L):
 def symbol_propagation(ctx, L):
     pp = ctx.py.mod('prophyc.parsers.prophy').func('Parser.p_include_def')
     s = ws(unparse(pp.node))
-    L.check('if isinstance(node, (model.Typedef, model.Enum, model.Struct, model.Union)): self.typedecls[node.name] = node' in s,
+    L.check(inn('if isinstance(node, (model.Typedef, model.Enum, model.Struct, model.Union)): self.typedecls[node.name] = node', s),
             'C16d.symbol-propagation', 'p_include_def|types', pp.site(), 'every type-defining node class of an included file enters the scope', '')
-    L.check('if isinstance(node, model.Constant): self.constdecls[node.name] = node' in s and 'for mem in node.members: self.constdecls[mem.name] = mem' in s,
+    L.check(inn('if isinstance(node, model.Constant): self.constdecls[node.name] = node', s) and inn('for mem in node.members: self.constdecls[mem.name] = mem', s),
             'C16d.symbol-propagation', 'p_include_def|constants', pp.site(), 'constants and enumerators of an included file enter the scope', '')
-    L.check('node = model.Include(stem, nodes) self.nodes.append(node)' in s and "stem = os.path.splitext(os.path.basename(path))[0]" in s,
+    L.check(inn('node = model.Include(stem, nodes) self.nodes.append(node)', s) and inn("stem = os.path.splitext(os.path.basename(path))[0]", s),
             'C16d.symbol-propagation', 'p_include_def|node', pp.site(), 'the include is recorded by its stem with the nodes of the included file', '')
     # name-defining node classes of model.py = what p_include_def registers
     model = ctx.py.mod('prophyc.model')
@@ -110,7 +111,7 @@ def symbol_propagation(ctx, L):
             '_make_types_index', mt.site(), 'types of included files are visible to cross-referencing', '')
     py = ctx.py.mod('prophyc.generators.python').func('_PythonTranslator.translate_include')
     s = ws(unparse(py.node))
-    L.check('included = list(sorted((n.name for n in include.defined_symbols() if n.name not in self.included_symbols)))' in s,
+    L.check(inn('included = list(sorted((n.name for n in include.defined_symbols() if n.name not in self.included_symbols)))', s),
             'C16d.python-import', 'translate_include|names', py.site(), 'the Python module imports the (sorted) names of everything the include defines', s[:300])
     imports_enumerators = re.search(r'members|EnumMember|enumerat', s) is not None
     L.check(imports_enumerators, 'C16d.python-import', 'translate_include|enumerators', py.site(),
@@ -137,7 +138,7 @@ def generators(ctx, L):
 def one_processor(ctx, L):
     m = ctx.py.func('prophyc:main')
     s = ws(unparse(m.node))
-    L.check(s.count('FileProcessor(') == 1 and 'file_processor_ = FileProcessor(model_parser, opts.include_dirs)' in s and
-            'for input_file in opts.input_files: with error_on_exception(emit): nodes = file_processor_(input_file)' in s, 'C16f.one-processor',
+    L.check(s.count('FileProcessor(') == 1 and inn('file_processor_ = FileProcessor(model_parser, opts.include_dirs)', s) and
+            inn('for input_file in opts.input_files: with error_on_exception(emit): nodes = file_processor_(input_file)', s), 'C16f.one-processor',
             'main', m.site(), 'one FileProcessor per run, created with exactly the -I directories (no implicit working-directory entry) and '
             'reused for every input file (each file is processed once)', '')
